@@ -344,6 +344,50 @@ def execute_ports(desc):
         s.cleanup()
 
 
+def execute_exit_tail(desc):
+    """The lock must cover everything the holder does, to the end of its process: a `run` that reuses a
+    slot holding a very large earlier run (many thousand directories) is followed, from the moment its
+    last executable has exited until its process is gone, by back-to-back contenders. A contender that
+    completes successfully while the holder's process is still alive was past acquisition together with it."""
+    n_dirs = desc["dirs"]
+    s = sc.Scratch("c14t")
+    try:
+        r = sc.Repo(s, "r", TARGETS, commands={"a": {"build": "x"}, "b": {"build": "x"}}, max_retained_runs=1)
+        if r.mr("run", "-c", "build", "-t", "a", env=r.trace_env()).code != 0:
+            raise common.EngineError("first run failed")
+        slot = os.path.join(r.out_dir(), "run", "1")
+        for i in range(n_dirs):
+            os.makedirs(os.path.join(slot, "bulk", "d%02d" % (i % 50), "x%05d" % i))
+        viol = []
+        c = ctlmod.Controller(s)
+        try:
+            h = c.spawn("holder", [common.MONORAIL, "run", "-c", "build", "-t", "a"], r.dir, s.env(c.env()))
+            if not c.wait(lambda: len(c.waiting()) >= 1 or h.done(), 30) or h.done():
+                raise common.EngineError("holder run did not start its command (exit %s %s)" % (h.code, h.err[:200]))
+            for ch in list(c.waiting()):
+                c.release(ch, 0)
+            attempts = 0
+            t_end = time.time() + 30
+            while h.p.poll() is None and time.time() < t_end:
+                con = r.mr(*APIS[desc["api"]])
+                attempts += 1
+                if con.code == 0 and h.p.poll() is None:
+                    viol.append(("two-holders", "%s completed (exit 0) while the run that reuses a slot with %d directories was still alive (attempt %d after its last executable exited)" % (" ".join(APIS[desc["api"]]), n_dirs, attempts)))
+                    break
+            c.wait(lambda: h.done(), 30)
+            return {"evaluations": 1, "nontrivial": 1, "states": [["exit-tail", desc["api"]]], "transitions": attempts,
+                    "violations": [{"sig": sig, "detail": d, "rank": 46, "case": {"c14t": desc}} for sig, d in viol],
+                    "sample": {"exit_tail": desc, "contender_attempts_while_holder_alive": attempts}}
+        finally:
+            c.close()
+    except common.EngineError as e:
+        return {"engine_error": str(e)}
+    except Exception:
+        return {"engine_error": traceback.format_exc()[-1500:]}
+    finally:
+        s.cleanup()
+
+
 def execute_slow_resolver(desc):
     """The lock host is a name, and for the contender the name service answers slower than
     bind_timeout_ms (fault injected through an LD_PRELOAD shim around getaddrinfo) while a run holds the
@@ -394,6 +438,8 @@ def execute_slow_resolver(desc):
 
 
 def _exec_any(desc):
+    if "dirs" in desc:
+        return execute_exit_tail(desc)
     if "delay_ms" in desc:
         return execute_slow_resolver(desc)
     if "ports" in desc:
@@ -419,6 +465,8 @@ def scenarios(tier):
             out.append({"nested": kind, "api": api})
     for api in names:
         out.append({"api": api, "delay_ms": 700, "timeout_ms": 200})
+    for api in (["checkpoint_update", "out_delete"] if tier == "quick" else names):
+        out.append({"api": api, "dirs": 20000 if tier == "quick" else 60000})
     out.append({"ports": [65535, 65536, 70000, 131072], "apis": ["checkpoint_update", "out_delete"] if tier == "quick" else names})
     return out
 
@@ -438,7 +486,7 @@ def run(prop, tier):
            "distinct_nontrivial": sum(r["nontrivial"] for r in results),
            "violations": [v for r in results for v in r["violations"]],
            "samples": [r["sample"] for r in results[:: max(1, len(results) // 5)]][:6], "exhaustive": True,
-           "rule": "contenders: every ordered pair (thorough: plus every multiset of 3) over {run, checkpoint update, checkpoint delete, out delete --all}, all started and held at lock.pre; every maximal sequence of {attempt i, finish holder, kill holder (SIGKILL)}, plus for pairs an attempt that is still in progress (2 s, bind timeout raised to 6 s) when the holder finishes or is killed; plus contenders that descend from a holder (a command executable of the holding run, or the orphaned executable of a SIGKILLed run while another run holds, starts each of the four APIs with the environment monorail gave it); plus contenders for which the name service of the lock host answers slower than bind_timeout_ms (LD_PRELOAD shim around getaddrinfo) while a run holds the lock; plus lock ports at and beyond the end of the valid range (65535, 65536, 70000, 131072) shared by a holding run and a contender; each sequence executed from scratch on real processes against a repository with a checkpoint and a completed run; invariants: never two contenders past lock acquisition; an attempt while somebody holds exits non-zero with a server lock error, starts no executable and leaves <out_dir> byte-identical (also compared with its state before any contender was started, as long as no holder has worked); an attempt while nobody holds (initially, after exit, after SIGKILL) acquires at once; states = (contender statuses, holder) per contender tuple"}
+           "rule": "contenders: every ordered pair (thorough: plus every multiset of 3) over {run, checkpoint update, checkpoint delete, out delete --all}, all started and held at lock.pre; every maximal sequence of {attempt i, finish holder, kill holder (SIGKILL)}, plus for pairs an attempt that is still in progress (2 s, bind timeout raised to 6 s) when the holder finishes or is killed; plus contenders that descend from a holder (a command executable of the holding run, or the orphaned executable of a SIGKILLed run while another run holds, starts each of the four APIs with the environment monorail gave it); plus back-to-back contenders during the exit tail of a run that reuses a slot holding tens of thousands of directories; plus contenders for which the name service of the lock host answers slower than bind_timeout_ms (LD_PRELOAD shim around getaddrinfo) while a run holds the lock; plus lock ports at and beyond the end of the valid range (65535, 65536, 70000, 131072) shared by a holding run and a contender; each sequence executed from scratch on real processes against a repository with a checkpoint and a completed run; invariants: never two contenders past lock acquisition; an attempt while somebody holds exits non-zero with a server lock error, starts no executable and leaves <out_dir> byte-identical (also compared with its state before any contender was started, as long as no holder has worked); an attempt while nobody holds (initially, after exit, after SIGKILL) acquires at once; states = (contender statuses, holder) per contender tuple"}
     by = {}
     for v in agg["violations"]:
         by[v["sig"]] = by.get(v["sig"], 0) + 1
@@ -451,7 +499,7 @@ def run(prop, tier):
 
 def replay(prop, path):
     body = json.load(open(path))
-    r = _exec_any(body["case"].get("c14r") or body["case"].get("c14p") or body["case"].get("c14n") or body["case"]["c14"])
+    r = _exec_any(body["case"].get("c14t") or body["case"].get("c14r") or body["case"].get("c14p") or body["case"].get("c14n") or body["case"]["c14"])
     if "engine_error" in r:
         print("ENGINE:", r["engine_error"])
         return 2
